@@ -27,9 +27,10 @@ def gen(rng, tier):
     b = rng.choice([0, 1, 2, 2, 3, 5])
     w = 0 if b <= 1 else rng.choice([0, 0.01, 0.01, 1.0])
     nworkers = rng.choice([1, 1, 2, 3])
-    n = rng.choice([1, 2, 3, 5, 8, 12])
+    n = rng.choice([1, 2, 3, 5, 8, 12, 18, 26, 34])
     base = w if w else 0.01
     items = []
+    burst = n > 12  # a backlog larger than the worker's internal batch buffer (batch_size+10): the collector meets a full buffer
     for i in range(n):
         kind = 'x'
         r = rng.random()
@@ -37,8 +38,10 @@ def gen(rng, tier):
             kind = 'remote_exc_obj'  # RemoteException instance (thread queue upstream)
         elif r < 0.14:
             kind = 'remote_exc'  # exception that crossed a pickle hop
-        items.append({'x': i + 1, 'kind': kind, 'gap': rng.choice([0, 0, 0, base / 2, base, base * 1.5, 0.001, 'pause'])})
-    sc = {'b': b, 'w': w, 'nworkers': nworkers, 'items': items, 'delays': [rng.choice([0, 0, 0.002, 0.02, 0.3])],
+        items.append({'x': i + 1, 'kind': kind, 'gap': 0 if (burst and rng.random() < 0.9) else rng.choice([0, 0, 0, base / 2, base, base * 1.5, 0.001, 'pause'])})
+    if burst:
+        nworkers = rng.choice([1, 1, 2])
+    sc = {'b': b, 'w': w, 'nworkers': nworkers, 'items': items, 'delays': [rng.choice([0.002, 0.02, 0.3]) if burst else rng.choice([0, 0, 0.002, 0.02, 0.3])],
           'stream_threads': 2 if rng.random() < 0.15 else 0, 'final_pause': rng.random() < 0.5}
     if rng.random() < 0.35:
         good = [it['x'] for it in items if it['kind'] == 'x']
